@@ -48,6 +48,21 @@ CLAIMED.update({
    "the UDP header half is a pure function of its input (reported as pure_input_runs); the claim rests on the negotiation half",
    DS+"segmentation/truncation faults on the stream; RFC reference-parser differential oracle"),
 })
+
+CLAIMED.update({
+ "C07": ("exploration", "DESIGN.md §4 C07",
+   "A real wired node (SessionManager, client registry, connection lifecycle, stale sweep on its real ticker, BaseAdapter read loops) with an approve-all auth double; 5-25 operations over 2-3 client ids and up to 6 simulated transports (connect, handshake, re-handshake as another id, duplicate login, kick, heartbeat, silence past the heartbeat timeout, server-side close, client EOF, control-connection cap 0-3), sequentially with settled checks after every step or with 2-3 concurrent actors under statement-level interleavings; oracle: every by-client lookup is nil or a registered, authenticated, open connection of that client; closed/evicted transports are returned by no lookup and are really closed; all counts return to zero.",
+   "a nil answer for a live client is allowed by the text and not flagged; settled checks are confirmed one simulated second later to avoid observing an eviction in progress",
+   DS+"operation histories + concurrent actors; registry well-formedness and conservation oracle"),
+ "C15": ("exploration", "DESIGN.md §4 C15",
+   "2-3 IDManager/StorageIDGenerator instances and NodeIDAllocator contenders (= nodes) on one shared simulated store in four flavours (memory SetNX, Redis SetNX, tiered, a store without CASStore) with a low-entropy crypto/rand.Reader so that nearly every candidate collides and the retry and exhaustion paths run in every run; concurrent Generate/Release/allocate/heartbeat with storage-operation interleavings, store outages and lease expiry on the simulated clock; oracle: live-interval overlap check on returned ids, pre-existing markers never handed out, exhaustion fails cleanly within its attempt bound.",
+   "UUID-based ids (connection/tunnel/instance ids) rest on entropy and are only smoke-checked under the full-entropy reader",
+   DS+"collision-amplified randomness seam; live-interval uniqueness oracle"),
+ "C16": ("exploration", "DESIGN.md §4 C16",
+   "One real component per run (dispose Dispose/ResourceBase/ManagerBase/ResourceManager, StreamProcessor with a blocked reader, memory storage, client tunnel.Tunnel with its manager, server tunnel.Bridge mid-transfer) with counting callbacks; 2-5 closer tasks and the component's own completion paths (peer EOF, idle timeout on the simulated clock, peer notification, context cancellation) interleaved at atomic/lock/statement granularity, then late user operations; oracle: every clean handler, close callback, traffic report and unregister ran exactly once, no task panicked, late operations fail cleanly, and after close nothing the component started is still alive.",
+   "SessionManager and hybrid.Storage shutdown are not covered; timers are observed through the goroutines they wake",
+   DS+"closer/completion-path interleavings; exactly-once counters, panic and goroutine-leak oracles"),
+})
 props=[json.loads(l) for l in open('/verif/properties.jsonl')]
 checks=[]
 na=[]
